@@ -1,0 +1,41 @@
+//go:build verif
+
+// Contracts for the verification engine in /verif (comment-only file; it is
+// compiled only with the build tag "verif" and contains no code).
+
+package socket
+
+//@ sealed socket.Message => *socket.message
+//@ sealed socket.Header => *socket.message
+//@ sealed socket.Body => *socket.message
+
+//@ spec fn freshMsg(m *message) bool = m.serviceMethod == "" && m.status == nil && m.body == nil && m.newBodyFunc == nil && m.ctx == nil && m.size == 0 && m.seq == 0 && m.mtype == 0 && m.bodyCodec == 0 && m.meta != nil && len(m.meta.args) == 0 && m.xferPipe != nil && len(m.xferPipe.filters) == 0
+
+//@ func (*message).doSetting
+//@   property C20
+//@   modifies all
+//@   ensures[noop-without-settings] len(settings) == 0 ==> unchanged()
+//@   loop 0: invariant[idx] $idx >= -1
+//@   loop 0: invariant[noop] len(settings) == 0 ==> unchanged()
+
+//@ func (*message).Reset
+//@   property C20
+//@   requires m.meta != nil && m.xferPipe != nil
+//@   ensures[all-fields] len(settings) == 0 ==> freshMsg(m)
+//@   ensures[identity] len(settings) == 0 ==> m.meta == old(m.meta) && m.xferPipe == old(m.xferPipe)
+
+//@ func NewMessage
+//@   property C20
+//@   ensures[fresh] len(settings) == 0 ==> istype(result, type(*message)) && freshMsg(as(result, type(*message)))
+
+//@ func init$1
+//@   property C20
+//@   ensures[pool-new-is-fresh] istype(result, type(*message)) && freshMsg(as(result, type(*message)))
+
+//@ func GetMessage
+//@   property C20
+//@   ensures[like-new] len(settings) == 0 ==> istype(result, type(*message)) && freshMsg(as(result, type(*message)))
+
+//@ func PutMessage
+//@   property C20
+//@   requires istype(m, type(*message)) && as(m, type(*message)).meta != nil && as(m, type(*message)).xferPipe != nil
